@@ -456,6 +456,14 @@ def _run(ck, pg, pgsql, BaseIsotherm, rng, thorough, files):
                 exc = e
             out = sl.outcome_of(exc)
             after, integ, fk = sl.read_tables(path)
+            if line is None:
+                # the operation failed while its ARGUMENT was being built (before any library call on the database): nothing to hand
+                # to the model; the file must be as it was
+                ck.count((kind, "argument not built", repr(exc)[:80]), nontrivial=False, bucket=f"{kind}:argument could not be built")
+                if before != after or integ != [("ok",)] or fk:
+                    ck.fail_case({"op": kind, "outcome": err_class(exc) if exc is not None else out, "clause": "refused operation changed the database"},
+                                 {"error": repr(exc)[:300], "file": fi})
+                continue
             lines.append(f"use {h * 10 + fi}")
             plan.append(None)
             lines.append("op - " + line)
